@@ -12,6 +12,7 @@ import (
 	"os"
 	"path/filepath"
 	"regexp"
+	"sort"
 	"strconv"
 	"strings"
 )
@@ -268,23 +269,46 @@ func main() {
 	var b strings.Builder
 	b.WriteString("import Hostd.Model.Chain\n/-! GENERATED by extract/sqlwhere from persist/sqlite/{contracts,consensus}.go — do not edit. -/\nnamespace Hostd.Chain.Gen\nopen Hostd.Chain\n\n")
 	var allNotes []string
-	for _, sp := range specs {
-		f := files[sp.file]
-		if f == nil {
-			var err error
-			f, err = parser.ParseFile(fset, filepath.Join(repo, sp.file), nil, 0)
-			if err != nil {
-				fmt.Fprintln(os.Stderr, err)
-				os.Exit(2)
-			}
-			files[sp.file] = f
+	// all non-test files of the package: the query helpers may live in any of them, their SQL in constants
+	pkgFuncs := map[string]*ast.FuncDecl{}
+	pkgConsts := map[string]string{}
+	names, _ := filepath.Glob(filepath.Join(repo, "persist/sqlite", "*.go"))
+	sort.Strings(names)
+	for _, src := range names {
+		base := filepath.Base(src)
+		if strings.HasSuffix(base, "_test.go") || strings.HasPrefix(base, "zz_verif") {
+			continue
 		}
-		var fd *ast.FuncDecl
+		f, err := parser.ParseFile(fset, src, nil, 0)
+		if err != nil {
+			fmt.Fprintln(os.Stderr, err)
+			os.Exit(2)
+		}
+		files[src] = f
 		for _, d := range f.Decls {
-			if x, ok := d.(*ast.FuncDecl); ok && x.Name.Name == sp.fn {
-				fd = x
+			switch x := d.(type) {
+			case *ast.FuncDecl:
+				if pkgFuncs[x.Name.Name] == nil {
+					pkgFuncs[x.Name.Name] = x
+				}
+			case *ast.GenDecl:
+				for _, spc := range x.Specs {
+					if vs, ok := spc.(*ast.ValueSpec); ok {
+						for i, nm := range vs.Names {
+							if i < len(vs.Values) {
+								if lit, ok := vs.Values[i].(*ast.BasicLit); ok && lit.Kind == token.STRING {
+									v, _ := strconv.Unquote(lit.Value)
+									pkgConsts[nm.Name] = v
+								}
+							}
+						}
+					}
+				}
 			}
 		}
+	}
+	for _, sp := range specs {
+		fd := pkgFuncs[sp.fn]
 		c := &conv{ver: sp.ver, idxParams: map[string]bool{}, u64Params: map[string]bool{}, locals: map[string]ast.Expr{}, lohi: strings.Contains(sp.params, "lo hi")}
 		if fd != nil && fd.Type.Params != nil {
 			for _, f := range fd.Type.Params.List {
@@ -346,6 +370,9 @@ func main() {
 							sql, _ = strconv.Unquote(a.Value)
 						case *ast.Ident:
 							sql = consts[a.Name]
+							if sql == "" {
+								sql = pkgConsts[a.Name]
+							}
 						}
 						c.args = x.Args[1:]
 					}
